@@ -3,6 +3,7 @@ package nject
 import (
 	"fmt"
 	"reflect"
+	"sort"
 )
 
 type bypassDebug Debugging
@@ -52,24 +53,34 @@ func (c *Collection) Condense(treatErrorAsTerminal bool) (Provider, error) {
 	// Annotate providers so that the last provider in the collection will
 	// be treated as a final function and it's return values will be
 	// upOut upflows.
+	var downIn, upOut []reflect.Type
 	{
 		nonStaticTypes := make(map[typeCode]bool)
 		beforeInvoke, afterInvoke, err := c.characterizeAndFlatten(nonStaticTypes)
 		if err != nil {
 			return nil, err
 		}
-		ia := make([]any, 0, len(beforeInvoke)+len(afterInvoke))
-		for _, fm := range beforeInvoke {
-			ia = append(ia, fm)
-		}
-		for _, fm := range afterInvoke {
+		// The flows are those of the list as Bind runs it: literals and static
+		// providers come first, whatever their place in the list.
+		all := make([]*provider, 0, len(beforeInvoke)+len(afterInvoke))
+		all = append(all, beforeInvoke...)
+		all = append(all, afterInvoke...)
+		hoisted := Collection{name: name, contents: append([]*provider(nil), all...)}
+		downIn, _ = hoisted.DownFlows()
+		_, upOut = hoisted.UpFlows()
+
+		// What gets bound keeps the order the providers were listed in: Bind
+		// does its own hoisting once it knows what the invoke function
+		// supplies (which decides what is static).
+		sort.SliceStable(all, func(i, j int) bool {
+			return all[i].chainPosition < all[j].chainPosition
+		})
+		ia := make([]any, 0, len(all))
+		for _, fm := range all {
 			ia = append(ia, fm)
 		}
 		c = Sequence(name, ia...)
 	}
-
-	downIn, _ := c.DownFlows()
-	_, upOut := c.UpFlows()
 
 	// If we've got debugging going on inside the condensed collection, let's
 	// pipe in the debugging from the outer collection too.  To do that, we
